@@ -20,6 +20,10 @@ CLAIMED = {
          "seeded simulation; reference-model oracle over connection histories", "4 C15"),
  "C16": ("simulation with arbitrary peer source addresses (impossible over loopback): non-matching peers get zero bytes + EOF, matching peers are served; wildcard parser grammar. Rust API over plain TCP in this round",
          "seeded simulation over filter x source-address lattice; reference filter model", "4 C16"),
+ "C08": ("simulation of real TLS sessions with an authorization handler: reply stream and interleaved authorization/point-handler journal equal model::server for seeded policies, roles (fixture certificates) and request sequences",
+         "seeded simulation of real rustls sessions over the simulated network; reference-model oracle", "4 C08"),
+ "C09": ("seeded sampling of the full TLS grid (min version x mode x authz x role x peer versions x peer certificate) with real rustls handshakes over the simulated stream against an independently configured bare rustls peer, under record chunking/latency and broken-handshake faults",
+         "seeded simulation; grid oracle; handshake fault injection", "4 C09"),
  "C10": ("exact lock-step comparison of the real client task with model::client over seeded action/fault sequences (replies, timeouts, I/O errors, enable/disable, shutdown, handle drop, task abort, clock jumps) in virtual time; exactly-once and result class per request",
          "seeded simulation with fault injection; refinement against an executable reference model", "4 C10"),
  "C11": ("same lock-step runs: wire frames and tx ids vs model; stale/duplicate/future/unsolicited frames never complete a request; 66 000-request wrap run",
